@@ -186,6 +186,29 @@ type hcase struct {
 	TempsOK bool     `json:"temps_ok"`
 	Shared  bool     `json:"same_bundle_objects_reused"` // Sets of equal content pass the SAME *Bundle / *RevocationList objects
 	Frame   []string `json:"caller_owned_objects_mutated,omitempty"`
+	Panics  []string `json:"panics,omitempty"`
+}
+
+type panicError struct{ v any }
+
+func (p panicError) Error() string { return fmt.Sprintf("panic: %v", p.v) }
+
+func safeGet(c *crl.FileCache, ctx context.Context, u string) (b *corecrl.Bundle, err error) {
+	defer func() {
+		if r := recover(); r != nil {
+			b, err = nil, panicError{r}
+		}
+	}()
+	return c.Get(ctx, u)
+}
+
+func safeSet(c *crl.FileCache, ctx context.Context, u string, b *corecrl.Bundle) (err error) {
+	defer func() {
+		if r := recover(); r != nil {
+			err = panicError{r}
+		}
+	}()
+	return c.Set(ctx, u, b)
 }
 
 // ---------- caller-owned objects ----------
@@ -421,9 +444,12 @@ func (e *env) execute(id int64, sb string, hc *hcase) string {
 			before := snapBundle(b)
 			hookMu.Lock()
 			hookCur = rec
-			err := caches[o.Inst&1].Set(ctx, o.U, b)
+			err := safeSet(caches[o.Inst&1], ctx, o.U, b)
 			hookCur = nil
 			hookMu.Unlock()
+			if pe, ok := err.(panicError); ok {
+				hc.Panics = append(hc.Panics, fmt.Sprintf("op %d: Set(%s): %v", opIdx, qurl(o.U), pe.v))
+			}
 			if after := snapBundle(b); after != before {
 				hc.Frame = append(hc.Frame, fmt.Sprintf("op %d: Set(%s) changed the caller's Bundle / RevocationList: before {%s} after {%s}", opIdx, qurl(o.U), before, after))
 			}
@@ -455,7 +481,7 @@ func (e *env) execute(id int64, sb string, hc *hcase) string {
 			var t0, t1 time.Time
 			for try := 0; try < 50; try++ {
 				t0 = time.Now()
-				bundle, gerr = caches[o.Inst&1].Get(ctx, o.U)
+				bundle, gerr = safeGet(caches[o.Inst&1], ctx, o.U)
 				t1 = time.Now()
 				amb := false
 				for _, nu := range e.nus {
@@ -469,6 +495,9 @@ func (e *env) execute(id int64, sb string, hc *hcase) string {
 				time.Sleep(7 * time.Millisecond)
 			}
 			o.tMs = e.ms(t0)
+			if pe, ok := gerr.(panicError); ok {
+				hc.Panics = append(hc.Panics, fmt.Sprintf("op %d: Get(%s): %v", opIdx, qurl(o.U), pe.v))
+			}
 			switch {
 			case gerr == nil && bundle != nil && bundle.BaseCRL != nil:
 				base := string(bundle.BaseCRL.Raw)
